@@ -249,6 +249,13 @@ func resumeScan(input string, max int) []scanCall {
 }
 
 func runC02(prop string, res *Result, pool *DrvPool, r *Rng) {
+	// the command end to end: process() against its model (byte-exact output and
+	// status) and against the resume protocol over the public API
+	defer func() {
+		rule := res.Rule
+		runCLI(prop, res, pool, r.Fork())
+		res.Rule = rule + " | command level: " + res.Rule
+	}()
 	res.Rule = "byte streams: junk (incl. look-alikes such as '==================', 'WARNING: DATA RACE', file-like and function-like lines, CRLF, very long lines, no trailing newline) interleaved with 0..3 generated dumps/race reports; each ScanSnapshot call checked against the conservation oracle (forwarded lines are an ordered subsequence, remainder is a suffix, only dump lines + one blank withheld), repeated scanning, and the pp command's process() end to end; non-trivial = the stream contains a dump or a look-alike line; distinct by hash of the stream"
 	runLowStreams(res, pool, r.Fork())
 	n := countN(res.Tier, 1500, 40000)
